@@ -125,9 +125,14 @@ mut("ep_piston_quiescent_left_uninitialised", "C06", "exactpack/solvers/ep_pisto
     "an allocator that returns non-zero memory (dirty allocation fault F7, or simply a long-running process)", ["test_ep_piston.py"], "ep_piston", "H1 under F7")
 
 mut("call_sorts_points_in_place", "C05", "exactpack/base.py",
-    """        return self._run(numpy.asarray(r), t)
+    """        if r.dtype.kind in 'iu':
+            r = r.astype(float)
+
+        return self._run(r, t)
 """,
-    """        r = numpy.asarray(r)
+    """        if r.dtype.kind in 'iu':
+            r = r.astype(float)
+
         if r.ndim == 1 and r.flags.writeable:
             r.sort()       # the solvers expect monotone positions
         return self._run(r, t)
